@@ -85,6 +85,10 @@ func timeoutClass(sc *scenario) string {
 
 func peerClass(p *peerScript) string {
 	switch {
+	case p.TLS && p.Gate >= 0 && p.Deliver != 0:
+		return fmt.Sprintf("tls/%d-garbage-bytes", p.Garbage)
+	case p.TLS && p.Gate >= 0 && !p.EOF:
+		return "tls/silent"
 	case p.Gate < 0:
 		return "never-accepts-writes"
 	case p.Deliver == 0 && p.EOF:
@@ -113,6 +117,7 @@ func peerClass(p *peerScript) string {
 func account(sc *scenario, n int, o *outcome, v verdict) {
 	hx.Eval()
 	hx.Class("ctx/" + sc.Ctx)
+	hx.Class("wrap/" + map[bool]string{true: "none", false: sc.Wrap}[sc.Wrap == ""])
 	hx.Class("timeout/" + timeoutClass(sc))
 	hx.Class("peer/" + peerClass(&sc.Peer))
 	hx.Class("plan/" + sc.Plan.label())
@@ -155,7 +160,7 @@ func account(sc *scenario, n int, o *outcome, v verdict) {
 		return
 	}
 	hx.Class("nontrivial")
-	key := hx.Hash(sc.Ctx, timeoutClass(sc), peerClass(&sc.Peer), sc.RBuf, sc.WBuf, n, sc.Plan.label(), sc.Plan.IO, v.BoundKind, o.AtReturn.IOs, v.Outcome)
+	key := hx.Hash(sc.Wrap, sc.Ctx, timeoutClass(sc), peerClass(&sc.Peer), sc.RBuf, sc.WBuf, n, sc.Plan.label(), sc.Plan.IO, v.BoundKind, o.AtReturn.IOs, v.Outcome)
 	hx.NonTrivial(key, func() interface{} { return describe(sc, n, o, v) })
 }
 
@@ -185,6 +190,15 @@ func drawConfig(t *rapid.T) *scenario {
 	p.Tail = rapid.SampledFrom([]int{0, 0, 0, 5}).Draw(t, "tail")
 	p.Gate = rapid.SampledFrom([]int{0, 0, 0, 0, 0, 10, 30, -1}).Draw(t, "gate")
 	p.SlowDL = rapid.IntRange(0, 2).Draw(t, "slowSetDeadline") == 0
+	sc.Wrap = rapid.SampledFrom([]string{"", "", "", "", "tlsclient", "wrapconn", "both", "tls-default"}).Draw(t, "wrap")
+	if sc.Wrap == "tls-default" {
+		// crypto/tls runs its handshake inside the first Write of the upgrade
+		// request; the peer is silent, stalls inside a record header, or
+		// answers with bytes that are no TLS record.
+		sc.TLSNilCfg = rapid.Bool().Draw(t, "tlsNilConfig")
+		p.TLS, p.Resp, p.Tail = true, "tlsgarbage", 0
+		p.Garbage = rapid.SampledFrom([]int{3, 5, 40}).Draw(t, "garbage")
+	}
 	return sc
 }
 
@@ -306,6 +320,9 @@ func TestSuccessRace(t *testing.T) {
 		sc := drawConfig(rt)
 		sc.DialFail = false
 		sc.Timeout = 0
+		if sc.Wrap == "tls-default" {
+			sc.Wrap, sc.Peer.TLS = "both", false
+		}
 		sc.Peer.Resp, sc.Peer.Deliver, sc.Peer.EOF = "valid", -1, false
 		if sc.Peer.Gate < 0 {
 			sc.Peer.Gate = 10
@@ -396,6 +413,16 @@ type enumCfg struct {
 	dialDelay  int
 	rbuf, wbuf int
 	slowDL     bool
+	wrap       string
+}
+
+// peers of the configurations that dial wss with crypto/tls's own client
+var tlsPeers = []enumPeer{
+	{"tls/silent", peerScript{TLS: true, Resp: "tlsgarbage", Deliver: 0}},
+	{"tls/3-bytes-then-silent", peerScript{TLS: true, Resp: "tlsgarbage", Garbage: 3, Deliver: -1, Gaps: []int{10}}},
+	{"tls/garbage", peerScript{TLS: true, Resp: "tlsgarbage", Garbage: 40, Cuts: []int{100}, Gaps: []int{0, 10}, Deliver: -1}},
+	{"tls/never-accepts-writes", peerScript{TLS: true, Resp: "tlsgarbage", Deliver: 0, Gate: -1}},
+	{"tls/closes", peerScript{TLS: true, Resp: "tlsgarbage", Deliver: 0, EOF: true}},
 }
 
 // The limits of these configurations lie beyond every peer event, so the
@@ -408,6 +435,11 @@ var enumCfgs = []enumCfg{
 	{ctx: "custom", timeout: 995, wbuf: 200},
 	{ctx: "value", rbuf: 32},
 	{ctx: "cancel", slowDL: true},
+	{ctx: "cancel", wrap: "tlsclient"},
+	{ctx: "value", wrap: "wrapconn", timeout: 995},
+	{ctx: "deadline", deadline: 993, wrap: "both", wbuf: 64, slowDL: true},
+	{ctx: "cancel", wrap: "tls-default"},
+	{ctx: "custom", timeout: 995, wrap: "tls-default", slowDL: true},
 	{ctx: "deadline", deadline: 993, timeout: 985, wbuf: 64, slowDL: true},
 }
 
@@ -420,12 +452,16 @@ func TestEveryIOIndex(t *testing.T) {
 	var total int64
 	idx := 0
 	for _, cfg := range enumCfgs {
-		for _, ep := range enumPeers {
+		peers := enumPeers
+		if cfg.wrap == "tls-default" {
+			peers = tlsPeers
+		}
+		for _, ep := range peers {
 			idx++
 			if !hx.Mine(idx) {
 				continue
 			}
-			base := scenario{Ctx: cfg.ctx, Deadline: cfg.deadline, Timeout: cfg.timeout, DialDelay: cfg.dialDelay, RBuf: cfg.rbuf, WBuf: cfg.wbuf, Peer: ep.p}
+			base := scenario{Ctx: cfg.ctx, Deadline: cfg.deadline, Timeout: cfg.timeout, DialDelay: cfg.dialDelay, RBuf: cfg.rbuf, WBuf: cfg.wbuf, Peer: ep.p, Wrap: cfg.wrap}
 			base.Peer.SlowDL = cfg.slowDL
 			n, dryOut, dryV := dryRun(t, &base)
 			if dryV.Violation != "" || dryV.Infra != "" {
@@ -472,7 +508,7 @@ func TestEveryIOIndex(t *testing.T) {
 			}
 		}
 	}
-	hx.Part("cancel before/after every handshake I/O index (forced) + unforced race at the last + pre/dial-return/after-return/never, 8 configurations x 11 peers", total, true)
+	hx.Part("cancel before/after every handshake I/O index (forced) + unforced race at the last + pre/dial-return/after-return/never, 11 configurations x 11 peers + 2 crypto/tls configurations x 5 peers", total, true)
 }
 
 // TestEveryExpiryInstant enumerates the timer-driven ends: for stalling and
@@ -486,6 +522,8 @@ func TestEveryExpiryInstant(t *testing.T) {
 		{"slow-everywhere", peerScript{Resp: "valid", Cuts: []int{300, 700}, Gaps: []int{10, 10, 10}, Deliver: -1, Gate: 10}},
 		{"partial-then-silent", peerScript{Resp: "valid", Cuts: []int{300, 700}, Gaps: []int{10}, Deliver: 2}},
 		{"badaccept-slow", peerScript{Resp: "badaccept", Cuts: []int{500}, Gaps: []int{20, 10}, Deliver: -1}},
+		{"tls/silent", peerScript{TLS: true, Resp: "tlsgarbage", Deliver: 0}},
+		{"tls/slow-then-3-bytes", peerScript{TLS: true, Resp: "tlsgarbage", Garbage: 3, Deliver: -1, Gaps: []int{20}, Gate: 10}},
 	}
 	type lim struct {
 		name string
@@ -512,13 +550,19 @@ func TestEveryExpiryInstant(t *testing.T) {
 	idx := 0
 	for _, ep := range peers {
 		for _, dialDelay := range []int{0, 20} {
-			for wi, wbuf := range []int{0, 64, 0} {
+			for wi, wbuf := range []int{0, 64, 0, 0} {
 				idx++
 				if !hx.Mine(idx) {
 					continue
 				}
 				base := scenario{DialDelay: dialDelay, WBuf: wbuf, Peer: ep.p}
 				base.Peer.SlowDL = wi == 2
+				switch {
+				case ep.p.TLS:
+					base.Wrap, base.TLSNilCfg = "tls-default", wi%2 == 1
+				case wi == 3:
+					base.Wrap = "both"
+				}
 				n, dryOut, _ := dryRun(t, &base)
 				for _, l := range limits {
 					for k := 0; k <= 7; k++ {
@@ -546,7 +590,7 @@ func TestEveryExpiryInstant(t *testing.T) {
 			}
 		}
 	}
-	hx.Part("11 kinds of limit x 8 instants x 5 stalling/slow peers x NetDial delay {0,20ms} x {default write buffer, 64-byte write buffer, slow SetDeadline}", total, true)
+	hx.Part("11 kinds of limit x 8 instants x (5 stalling/slow peers + 2 peers stalling inside the crypto/tls handshake) x NetDial delay {0,20ms} x {default write buffer, 64-byte write buffer, slow SetDeadline, TLSClient+WrapConn wrappers}", total, true)
 }
 
 // ---------------------------------------------------------------------------
